@@ -3,7 +3,9 @@ package main
 import (
 	"fmt"
 	"go/ast"
+	"go/printer"
 	"math/big"
+	"strings"
 )
 
 // c05CompositeField evaluates field `field` of the first composite literal returned
@@ -55,8 +57,46 @@ func c05VarInitIsSelector(p *Pkg, name, want string) {
 	}
 }
 
+// c05HasCmp reports whether function recv.fn of package p contains the binary
+// expression `want` (printed source form, e.g. "id <= s.RespondedUpTo").
+func c05HasCmp(p *Pkg, recv, fn, want string) bool {
+	fd := p.Func(recv, fn)
+	found := false
+	ast.Inspect(fd.Body, func(n ast.Node) bool {
+		if be, ok := n.(*ast.BinaryExpr); ok {
+			var b strings.Builder
+			_ = printer.Fprint(&b, p.Fset, be)
+			if b.String() == want {
+				found = true
+			}
+		}
+		return true
+	})
+	return found
+}
+
+func c05BoolFact(name string, f func() bool) Fact {
+	return Fact{Name: name, Gen: func() string { return defBool(name, f()) }}
+}
+
 func init() {
 	register(&Unit{Name: "C05", Facts: []Fact{
+		// the comparisons the model writes as <=? / <? / =? , as they stand in the source
+		c05BoolFact("src_has_responded_le", func() bool {
+			return c05HasCmp(loadPkg("internal/rsm"), "Session", "hasResponded", "id <= s.RespondedUpTo")
+		}),
+		c05BoolFact("src_clear_to_guard_le", func() bool {
+			return c05HasCmp(loadPkg("internal/rsm"), "Session", "clearTo", "to <= s.RespondedUpTo")
+		}),
+		c05BoolFact("src_clear_to_shortcut_eq", func() bool {
+			return c05HasCmp(loadPkg("internal/rsm"), "Session", "clearTo", "to == s.RespondedUpTo+1")
+		}),
+		c05BoolFact("src_clear_to_loop_le", func() bool {
+			return c05HasCmp(loadPkg("internal/rsm"), "Session", "clearTo", "k <= to")
+		}),
+		c05BoolFact("src_evict_when_gt", func() bool {
+			return c05HasCmp(loadPkg("internal/rsm"), "", "newLRUSession", "uint64(n) > rec.size")
+		}),
 		// capacity of the session LRU: rsm.LRUMaxSessionCount = settings.Hard.LRUMaxSessionCount,
 		// default from getDefaultHardSettings()
 		NFact("lru_max_session_count", func() *big.Int {
